@@ -148,3 +148,12 @@
      (ite (= (dyn e) tag.*grammar.MatchExpression) (EvalMatchP (ME.p e) d ao h)
      (ite (= (dyn e) tag.*grammar.CollectionExpression) (EvalCollP (CE.p e) d ao h)
           O.E))))))
+; C18: the four option constructors a user can pass (WithLocalVariable is internal)
+(define-fun userOpt ((f Fn)) Bool
+  (or (= f fn.nil) ((_ is fn.bexpr.WithTagName$1) f) ((_ is fn.bexpr.WithHookFn$1) f) ((_ is fn.bexpr.WithUnknownValue$1) f) ((_ is fn.bexpr.WithMaxExpressions$1) f)))
+(define-fun sameCtor ((f Fn) (g Fn)) Bool
+  (or (and (= f fn.nil) (= g fn.nil))
+      (and ((_ is fn.bexpr.WithTagName$1) f) ((_ is fn.bexpr.WithTagName$1) g))
+      (and ((_ is fn.bexpr.WithHookFn$1) f) ((_ is fn.bexpr.WithHookFn$1) g))
+      (and ((_ is fn.bexpr.WithUnknownValue$1) f) ((_ is fn.bexpr.WithUnknownValue$1) g))
+      (and ((_ is fn.bexpr.WithMaxExpressions$1) f) ((_ is fn.bexpr.WithMaxExpressions$1) g))))
